@@ -58,6 +58,8 @@ pub struct GenOpts {
     /// aim at several rotation cycles per type: few types, several slots with several tracks,
     /// a generous allowance (vehicles that visit a slot get a negative counter and start a cycle)
     pub rotation_rich: bool,
+    /// force the "turnaround" regime (turning around takes longer than a detour)
+    pub force_turnaround: bool,
 }
 
 impl GenOpts {
@@ -68,6 +70,7 @@ impl GenOpts {
             force_slots: false,
             decoupled_depots: false,
             rotation_rich: false,
+            force_turnaround: false,
         }
     }
 }
@@ -145,7 +148,12 @@ pub fn generate(rng: &mut Rng, opts: &GenOpts, tag: &str) -> Value {
     }
 
     // ---------------------------------------------------------------- parameters
+    // "turnaround" regime: turning around at a station takes longer than a whole detour over
+    // another station (large minimal shunting time, tiny dead-head shunting and travel times,
+    // activities shorter than the turnaround)
+    let turnaround = opts.force_turnaround || (matches!(p, Profile::Mixed | Profile::NonMetric | Profile::Maint | Profile::Ties | Profile::Forbid) && rng.chance(1, 8));
     let shunt_min: i64 = match p {
+        _ if turnaround => if ties { grid * rng.range(2, 4) } else { *rng.pick(&[600, 900, 1800]) },
         Profile::Ties => *rng.pick(&[0, 0, 0, grid]),
         _ => {
             if ties {
@@ -156,6 +164,7 @@ pub fn generate(rng: &mut Rng, opts: &GenOpts, tag: &str) -> Value {
         }
     };
     let shunt_dh: i64 = match p {
+        _ if turnaround => if ties { 0 } else { *rng.pick(&[0, 0, 60]) },
         Profile::Ties => *rng.pick(&[0, 0, grid]),
         _ => {
             if ties {
@@ -187,7 +196,9 @@ pub fn generate(rng: &mut Rng, opts: &GenOpts, tag: &str) -> Value {
                 distances[i][k] = distances[k][i];
                 continue;
             }
-            let d = if ties {
+            let d = if turnaround {
+                if ties { grid * rng.range(0, 1) } else { rng.range(0, 4) * 60 }
+            } else if ties {
                 grid * rng.range(if p == Profile::NonMetric || p == Profile::Ties { 0 } else { 1 }, 4)
             } else if p == Profile::NonMetric && rng.chance(1, 5) {
                 0
@@ -262,7 +273,9 @@ pub fn generate(rng: &mut Rng, opts: &GenOpts, tag: &str) -> Value {
             } else {
                 rng.usize(0, nloc - 1)
             };
-            let dur = if ties {
+            let dur = if turnaround {
+                if ties { grid } else { rng.range(1, 6) * 60 }
+            } else if ties {
                 grid * rng.range(1, 6)
             } else {
                 rng.range(10, 120) * 60
@@ -341,7 +354,13 @@ pub fn generate(rng: &mut Rng, opts: &GenOpts, tag: &str) -> Value {
         let mut chain_end: Option<(i64, usize)> = None;
         for m in 0..nslots {
             let mut start = window_start - 4 * 3600 + rng.range(0, (window_len + 6 * 3600) / grid) * grid;
-            let mut len = if ties { grid * rng.range(1, 8) } else { rng.range(30, 240) * 60 };
+            let mut len = if turnaround {
+                if ties { grid } else { rng.range(1, 5) * 60 }
+            } else if ties {
+                grid * rng.range(1, 8)
+            } else {
+                rng.range(30, 240) * 60
+            };
             let mut l = rng.usize(0, nloc - 1);
             if chained {
                 // short slots one after the other at one location: a vehicle can visit several
@@ -486,7 +505,7 @@ pub fn generate(rng: &mut Rng, opts: &GenOpts, tag: &str) -> Value {
             _ => {
                 let nd = if p == Profile::Depots { rng.usize(1, 6) } else { rng.usize(1, 4) };
                 // several depots may share a location
-                let shared_loc = if rng.chance(1, 3) { Some(rng.usize(0, nloc - 1)) } else { None };
+                let shared_loc = if rng.chance(1, if p == Profile::Depots { 2 } else { 3 }) { Some(rng.usize(0, nloc - 1)) } else { None };
                 let mut v = Vec::new();
                 let generous = (total_need + total_tracks + 2) * 2;
                 for d in 0..nd {
@@ -588,7 +607,12 @@ pub fn generate(rng: &mut Rng, opts: &GenOpts, tag: &str) -> Value {
     root.insert("deadHeadTrips".into(), dh);
     root.insert("parameters".into(), Value::Object(params));
     let _ = n_segments;
-    Value::Object(root)
+    let mut root = Value::Object(root);
+    // one instance in ten carries values at the far end of the format
+    if rng.chance(1, 10) || std::env::var("VERIF_EXTREME_KIND").is_ok() {
+        apply_extremes(rng, &mut root);
+    }
+    root
 }
 
 /// three locations where the direct connection X -> Z is much slower than the detour over Y,
@@ -705,6 +729,553 @@ pub fn chain_network(rng: &mut Rng, tag: &str) -> Value {
             "allowedTypes": [{"vehicleType": format!("{}.V", tag), "capacity": 50}]})).collect::<Vec<_>>());
     }
     root
+}
+
+/// a busy line: few stations, a departure every few minutes for many hours, dead-head trips
+/// that are slower than the service trips and do not satisfy the triangle inequality. Tours get
+/// long (dozens of activities), flow networks large (hundreds of trips of one type).
+/// `long_distance`: service trips of 500-2500 km, so that whole tours exceed 10000 km.
+pub fn line_network(rng: &mut Rng, tag: &str, ndep: usize, with_slots: bool, long_distance: bool) -> Value {
+    let nloc = rng.usize(2, 5);
+    let ntypes = if rng.chance(1, 4) { 2 } else { 1 };
+    let loc = |j: usize| format!("{}.L{}", tag, j);
+    let vt = |j: usize| format!("{}.T{}", tag, j);
+    let headway = rng.range(2, 8) * 60;
+    let start = DAY0 + rng.range(4, 7) * 3600;
+    let shunt_min = *rng.pick(&[0i64, 60, 120]);
+    let shunt_dh = *rng.pick(&[0i64, 60, 300]);
+    // routes between neighbouring stations, both directions, per type
+    let mut routes = Vec::new();
+    let mut route_info: Vec<(String, String, i64)> = Vec::new(); // (route id, segment id, duration)
+    for t in 0..ntypes {
+        for j in 0..nloc {
+            for dir in 0..2 {
+                let (o, d) = if nloc == 1 {
+                    (0, 0)
+                } else if dir == 0 {
+                    (j, (j + 1) % nloc)
+                } else {
+                    ((j + 1) % nloc, j)
+                };
+                let dur = rng.range(4, 25) * 60;
+                let dist = if long_distance { rng.range(500, 2500) * 1000 } else { rng.range(3, 60) * 1000 };
+                let rid = format!("{}.r{}_{}_{}", tag, t, j, dir);
+                let sid = format!("{}.s", rid);
+                routes.push(json!({"id": rid, "vehicleType": vt(t), "segments": [{
+                    "id": sid, "order": 0, "origin": loc(o), "destination": loc(d), "distance": dist, "duration": dur}]}));
+                route_info.push((rid, sid, dur));
+            }
+        }
+    }
+    let mut departures = Vec::new();
+    let mut t_dep = start;
+    for i in 0..ndep {
+        let (rid, sid, _) = rng.pick(&route_info).clone();
+        let passengers = match rng.below(10) {
+            0 => 0,
+            1 => rng.range(101, 190),
+            _ => rng.range(1, 100),
+        };
+        departures.push(json!({"id": format!("{}.D{}", tag, i), "route": rid, "segments": [{
+            "id": format!("{}.D{}.s", tag, i), "routeSegment": sid, "departure": iso(t_dep),
+            "passengers": passengers, "seated": rng.range(0, passengers.min(50))}]}));
+        t_dep += if rng.chance(1, 5) { 0 } else { headway } + rng.range(0, 2) * 60;
+    }
+    let horizon_end = t_dep + 3600;
+    let mut durations = vec![vec![0i64; nloc]; nloc];
+    let mut distances = vec![vec![0i64; nloc]; nloc];
+    for a in 0..nloc {
+        for b in 0..nloc {
+            if a == b {
+                continue;
+            }
+            let hops = if a > b { a - b } else { b - a };
+            durations[a][b] = match rng.below(4) {
+                0 => rng.range(2, 20) * 60,                 // as fast as a service trip
+                1 => rng.range(20, 90) * 60,                // slower than the service trips
+                2 => rng.range(2, 6) * 3600,                // hours: long blocks of a tour cannot reach
+                _ => rng.range(5, 40) * 60 * hops as i64,
+            };
+            distances[a][b] = rng.range(1, 90) * 1000 * hops as i64;
+        }
+    }
+    let types: Vec<Value> = (0..ntypes).map(|t| json!({"id": vt(t), "capacity": 100, "seats": 60})).collect();
+    let mut root = json!({
+        "vehicleTypes": types,
+        "locations": (0..nloc).map(|j| json!({"id": loc(j)})).collect::<Vec<_>>(),
+        "routes": routes,
+        "departures": departures,
+        "deadHeadTrips": {"indices": (0..nloc).map(loc).collect::<Vec<_>>(), "durations": durations, "distances": distances},
+        "parameters": {
+            "shunting": {"minimalDuration": shunt_min, "deadHeadTripDuration": shunt_dh},
+            "costs": {"staff": rng.range(0, 100), "serviceTrip": rng.range(0, 60), "maintenance": rng.range(0, 20), "deadHeadTrip": rng.range(0, 600), "idle": rng.range(0, 30)}
+        }
+    });
+    if rng.chance(1, 2) {
+        let nd = rng.usize(1, 3);
+        root["depots"] = json!((0..nd).map(|j| {
+            let allowed: Vec<Value> = (0..ntypes).map(|t| json!({"vehicleType": vt(t), "capacity": 400})).collect();
+            json!({"id": format!("{}.P{}", tag, j), "location": loc(rng.usize(0, nloc - 1)), "capacity": 1000, "allowedTypes": allowed})
+        }).collect::<Vec<_>>());
+    }
+    if with_slots {
+        let ns = rng.usize(1, 3);
+        root["maintenanceSlots"] = json!((0..ns).map(|m| {
+            let s0 = start + rng.range(0, ((horizon_end - start) / 600).max(1)) * 600;
+            json!({"id": format!("{}.M{}", tag, m), "location": loc(rng.usize(0, nloc - 1)), "start": iso(s0), "end": iso(s0 + rng.range(2, 12) * 600), "trackCount": rng.range(1, 3)})
+        }).collect::<Vec<_>>());
+        root["parameters"]["maintenance"] = json!({"maximalDistance": if long_distance { rng.range(1000, 30000) * 1000 } else { rng.range(50, 3000) * 1000 }});
+    } else if rng.chance(1, 2) {
+        root["parameters"]["maintenance"] = json!({"maximalDistance": if long_distance { rng.range(1000, 30000) * 1000 } else { rng.range(50, 3000) * 1000 }});
+    }
+    root
+}
+
+/// one vehicle shuttles between two stations for hours (a trip every few minutes, with
+/// excursions to a third station), while other trips start at a remote station that is hours away
+/// from the shuttle stations - and farther from the excursion station than from the others, so
+/// that along the shuttle tour the nodes that can reach such a trip do NOT form a prefix. Returns
+/// the instance and the ids of the shuttle's departure segments in tour order.
+pub fn shuttle_network(rng: &mut Rng, tag: &str) -> (Value, Vec<String>) {
+    let loc = |j: usize| format!("{}.L{}", tag, j); // 0 = A, 1 = B, 2 = D (excursion), 3 = C (remote), 4 = E
+    let nloc = 5;
+    let shunt_min = *rng.pick(&[0i64, 60]);
+    let shunt_dh = *rng.pick(&[0i64, 60, 120]);
+    let mut durations = vec![vec![0i64; nloc]; nloc];
+    let mut distances = vec![vec![0i64; nloc]; nloc];
+    let class = |rng: &mut Rng, c: u64| -> i64 {
+        match c {
+            0 => rng.range(3, 12) * 60,
+            1 => rng.range(20, 50) * 60,
+            2 => rng.range(60, 200) * 60,
+            _ => rng.range(4, 9) * 3600,
+        }
+    };
+    for a in 0..nloc {
+        for b in 0..nloc {
+            if a != b {
+                let c = rng.below(4);
+                durations[a][b] = class(rng, c);
+                distances[a][b] = rng.range(1, 200) * 1000;
+            }
+        }
+    }
+    // towards the remote stations: hours from the shuttle stations, (usually) even longer from D
+    for remote in [3usize, 4] {
+        durations[0][remote] = class(rng, 2);
+        durations[1][remote] = class(rng, 2);
+        let c = if rng.chance(3, 4) { 3 } else { 0 };
+        durations[2][remote] = class(rng, c);
+    }
+    let mut routes = Vec::new();
+    let mut route_of = std::collections::BTreeMap::new();
+    for a in 0..nloc {
+        for b in 0..nloc {
+            let dur = rng.range(2, 7) * 60;
+            let rid = format!("{}.r{}_{}", tag, a, b);
+            routes.push(json!({"id": rid, "vehicleType": format!("{}.V", tag), "segments": [{
+                "id": format!("{}.s", rid), "order": 0, "origin": loc(a), "destination": loc(b), "distance": rng.range(1, 30) * 1000, "duration": dur}]}));
+            route_of.insert((a, b), (rid, dur));
+        }
+    }
+    let start = DAY0 + rng.range(3, 6) * 3600;
+    let n = rng.usize(40, 110);
+    let mut departures = Vec::new();
+    let mut shuttle_ids = Vec::new();
+    let mut cur = 0usize;
+    let mut t = start;
+    let mut d_idx = 0usize;
+    let mut add = |departures: &mut Vec<Value>, a: usize, b: usize, t: i64, d_idx: &mut usize| -> (String, i64) {
+        let (rid, dur) = route_of[&(a, b)].clone();
+        let id = format!("{}.D{}", tag, *d_idx);
+        departures.push(json!({"id": id, "route": rid, "segments": [{
+            "id": format!("{}.s", id), "routeSegment": format!("{}.s", rid), "departure": iso(t), "passengers": 40, "seated": 10}]}));
+        *d_idx += 1;
+        (format!("{}.s", id), dur)
+    };
+    for _ in 0..n {
+        let next = match cur {
+            0 => if rng.chance(1, 7) { 2 } else { 1 },
+            1 => if rng.chance(1, 7) { 2 } else { 0 },
+            _ => if rng.chance(1, 3) { 2 } else { rng.usize(0, 1) }, // a block of trips around D
+        };
+        let (sid, dur) = add(&mut departures, cur, next, t, &mut d_idx);
+        shuttle_ids.push(sid);
+        t += dur + shunt_min + rng.range(0, 2) * 60;
+        cur = next;
+    }
+    let end = t;
+    // the other trips: at the remote stations (and a few in the shuttle area), all day long
+    for _ in 0..rng.usize(8, 20) {
+        let a = *rng.pick(&[3usize, 3, 4, 4, 0, 1, 2]);
+        let b = *rng.pick(&[3usize, 4, 0, 1]);
+        let tt = start + rng.range(0, ((end - start) / 300).max(1)) * 300 + rng.range(0, 4) * 60;
+        add(&mut departures, a, b, tt, &mut d_idx);
+    }
+    let root = json!({
+        "vehicleTypes": [{"id": format!("{}.V", tag), "capacity": 100, "seats": 50}],
+        "locations": (0..nloc).map(|j| json!({"id": loc(j)})).collect::<Vec<_>>(),
+        "routes": routes,
+        "departures": departures,
+        "deadHeadTrips": {"indices": (0..nloc).map(loc).collect::<Vec<_>>(), "durations": durations, "distances": distances},
+        "parameters": {
+            "shunting": {"minimalDuration": shunt_min, "deadHeadTripDuration": shunt_dh},
+            "maintenance": {"maximalDistance": rng.range(100, 5000) * 1000},
+            "costs": {"staff": rng.range(0, 100), "serviceTrip": rng.range(0, 60), "maintenance": 5, "deadHeadTrip": rng.range(0, 600), "idle": rng.range(0, 30)}
+        }
+    });
+    (root, shuttle_ids)
+}
+
+/// "turnaround" structure: turning around at station X takes `minimalDuration` (20-40 min), but
+/// a detour over station Y (short dead-heads, tiny dead-head shunting, a short activity S at Y)
+/// fits into less. Triples P (ends at X), S (at Y), N (starts at X) with N.start - P.end placed
+/// just below / at / above the turnaround time: P -> S -> N is a valid tour, P -> N is not, so S
+/// must not be removable from it.
+pub fn turnaround_network(rng: &mut Rng, tag: &str) -> Value {
+    let loc = |j: usize| format!("{}.L{}", tag, j); // 0 = X, 1 = Y, 2 = W
+    let nloc = 3;
+    let shunt_min = rng.range(20, 40) * 60;
+    let shunt_dh = *rng.pick(&[0i64, 0, 30, 60]);
+    let mut durations = vec![vec![0i64; nloc]; nloc];
+    let mut distances = vec![vec![0i64; nloc]; nloc];
+    for a in 0..nloc {
+        for b in 0..nloc {
+            if a != b {
+                durations[a][b] = rng.range(0, 4) * 60;
+                distances[a][b] = rng.range(0, 9) * 1000;
+            }
+        }
+    }
+    let mut routes = Vec::new();
+    let mut route_of = std::collections::BTreeMap::new();
+    for a in 0..nloc {
+        for b in 0..nloc {
+            let dur = rng.range(1, 5) * 60;
+            let rid = format!("{}.r{}_{}", tag, a, b);
+            routes.push(json!({"id": rid, "vehicleType": format!("{}.V", tag), "segments": [{
+                "id": format!("{}.s", rid), "order": 0, "origin": loc(a), "destination": loc(b), "distance": rng.range(1, 30) * 1000, "duration": dur}]}));
+            route_of.insert((a, b), (rid, dur));
+        }
+    }
+    let mut departures = Vec::new();
+    let mut slots = Vec::new();
+    let mut d_idx = 0usize;
+    let mut add = |departures: &mut Vec<Value>, a: usize, b: usize, t: i64| -> i64 {
+        let (rid, dur) = route_of[&(a, b)].clone();
+        let id = format!("{}.D{}", tag, d_idx);
+        departures.push(json!({"id": id, "route": rid, "segments": [{
+            "id": format!("{}.s", id), "routeSegment": format!("{}.s", rid), "departure": iso(t), "passengers": 40, "seated": 10}]}));
+        d_idx += 1;
+        dur
+    };
+    let mut t = DAY0 + 6 * 3600;
+    for k in 0..rng.usize(1, 4) {
+        // P: W -> X
+        let from = *rng.pick(&[2usize, 1, 0]);
+        let p_dur = add(&mut departures, from, 0, t);
+        let p_end = t + p_dur;
+        // S at Y: as early as the rules allow (+ a little slack)
+        let s_start = p_end + durations[0][1] + 2 * shunt_dh + rng.range(0, 2) * 60;
+        let s_end;
+        if rng.chance(1, 3) {
+            let len = rng.range(1, 5) * 60;
+            slots.push(json!({"id": format!("{}.M{}", tag, k), "location": loc(1), "start": iso(s_start), "end": iso(s_start + len), "trackCount": rng.range(1, 2)}));
+            s_end = s_start + len;
+        } else {
+            let to = *rng.pick(&[1usize, 1, 2]);
+            let d = add(&mut departures, 1, to, s_start);
+            s_end = s_start + d;
+            // the way back to X starts where S ends
+            if to != 1 {
+                // keep the formula below right: dead-head from `to`
+                let back = s_end + durations[to][0] + 2 * shunt_dh;
+                let n_start = back.max(p_end + 60) + rng.range(0, 2) * 60;
+                let n_start = match rng.below(4) {
+                    0 => n_start.max(p_end + shunt_min),      // control: turning around is possible
+                    1 => n_start.max(p_end + shunt_min - 60), // just too short
+                    _ => n_start,
+                };
+                let to2 = *rng.pick(&[2usize, 1, 0]);
+                let n_dur = add(&mut departures, 0, to2, n_start);
+                t = n_start + n_dur + rng.range(0, 30) * 60;
+                continue;
+            }
+        }
+        let back = s_end + durations[1][0] + 2 * shunt_dh;
+        let n_start = back.max(p_end + 60) + rng.range(0, 2) * 60;
+        let n_start = match rng.below(4) {
+            0 => n_start.max(p_end + shunt_min),
+            1 => n_start.max(p_end + shunt_min - 60),
+            _ => n_start,
+        };
+        let to2 = *rng.pick(&[2usize, 1, 0]);
+        let n_dur = add(&mut departures, 0, to2, n_start);
+        t = n_start + n_dur + rng.range(0, 30) * 60;
+    }
+    // a few unrelated trips
+    for _ in 0..rng.usize(0, 3) {
+        let a = rng.usize(0, 2);
+        let b = rng.usize(0, 2);
+        let tt = DAY0 + 6 * 3600 + rng.range(0, 180) * 60;
+        add(&mut departures, a, b, tt);
+    }
+    let mut root = json!({
+        "vehicleTypes": [{"id": format!("{}.V", tag), "capacity": 100, "seats": 50}],
+        "locations": (0..nloc).map(|j| json!({"id": loc(j)})).collect::<Vec<_>>(),
+        "routes": routes,
+        "departures": departures,
+        "deadHeadTrips": {"indices": (0..nloc).map(loc).collect::<Vec<_>>(), "durations": durations, "distances": distances},
+        "parameters": {
+            "shunting": {"minimalDuration": shunt_min, "deadHeadTripDuration": shunt_dh},
+            "maintenance": {"maximalDistance": rng.range(10, 500) * 1000},
+            "costs": {"staff": rng.range(0, 100), "serviceTrip": rng.range(0, 60), "maintenance": 5, "deadHeadTrip": rng.range(0, 600), "idle": rng.range(0, 30)}
+        }
+    });
+    if !slots.is_empty() {
+        root["maintenanceSlots"] = json!(slots);
+    }
+    root
+}
+
+/// "depot squeeze": station X has several co-located depots with scarce capacities, station Y a
+/// depot that is nearer to the trips in seconds but farther in metres. The flow (seconds) parks
+/// vehicles at Y, the depot improvement (metres) moves them to X, where the co-located depots
+/// fill up one after the other while vehicles that already start there are re-assigned too.
+pub fn depot_squeeze_network(rng: &mut Rng, tag: &str) -> Value {
+    let loc = |j: usize| format!("{}.L{}", tag, j); // 0 = X, 1 = Y, 2 = Z (trips start), 3 = W
+    let nloc = 4;
+    let ntypes = rng.usize(1, 2);
+    let vt = |j: usize| format!("{}.T{}", tag, j);
+    let mut durations = vec![vec![0i64; nloc]; nloc];
+    let mut distances = vec![vec![0i64; nloc]; nloc];
+    for a in 0..nloc {
+        for b in 0..nloc {
+            if a != b {
+                durations[a][b] = rng.range(10, 40) * 60;
+                distances[a][b] = rng.range(10, 60) * 1000;
+            }
+        }
+    }
+    // Y is near in time and far in space, X the other way round
+    durations[1][2] = rng.range(2, 8) * 60;
+    distances[1][2] = rng.range(60, 90) * 1000;
+    durations[0][2] = rng.range(20, 40) * 60;
+    distances[0][2] = rng.range(1, 9) * 1000;
+    if rng.chance(1, 2) {
+        durations[3][1] = durations[1][2];
+        distances[3][1] = distances[1][2];
+        durations[3][0] = durations[0][2];
+        distances[3][0] = distances[0][2];
+    }
+    let n = rng.usize(3, 9);
+    let mut routes = Vec::new();
+    for t in 0..ntypes {
+        routes.push(json!({"id": format!("{}.r{}", tag, t), "vehicleType": vt(t), "segments": [{
+            "id": format!("{}.r{}.s", tag, t), "order": 0, "origin": loc(2), "destination": loc(3), "distance": rng.range(5, 60) * 1000, "duration": rng.range(10, 40) * 60}]}));
+        routes.push(json!({"id": format!("{}.b{}", tag, t), "vehicleType": vt(t), "segments": [{
+            "id": format!("{}.b{}.s", tag, t), "order": 0, "origin": loc(3), "destination": loc(2), "distance": rng.range(5, 60) * 1000, "duration": rng.range(10, 40) * 60}]}));
+    }
+    let t0 = DAY0 + 7 * 3600;
+    let mut departures = Vec::new();
+    let together = rng.chance(1, 2);
+    for i in 0..n {
+        let t = rng.usize(0, ntypes - 1);
+        let when = if together { t0 } else { t0 + rng.range(0, 3) * 300 };
+        let (route, pax) = if rng.chance(1, 5) { (format!("{}.b{}", tag, t), 150) } else { (format!("{}.r{}", tag, t), *rng.pick(&[50, 50, 150, 250])) };
+        departures.push(json!({"id": format!("{}.D{}", tag, i), "route": route, "segments": [{
+            "id": format!("{}.D{}.s", tag, i), "routeSegment": format!("{}.s", route), "departure": iso(when), "passengers": pax, "seated": 10}]}));
+    }
+    let cap_list = |rng: &mut Rng, total: u64| -> Vec<Value> {
+        let mut v = Vec::new();
+        for t in 0..ntypes {
+            if ntypes > 1 && !rng.chance(4, 5) {
+                continue;
+            }
+            v.push(match rng.below(3) {
+                0 => json!({"vehicleType": vt(t)}),
+                1 => json!({"vehicleType": vt(t), "capacity": rng.range(1, total.max(1) as i64)}),
+                _ => json!({"vehicleType": vt(t), "capacity": total}),
+            });
+        }
+        v
+    };
+    let mut depots = Vec::new();
+    let n_at_x = rng.usize(2, 4);
+    for d in 0..n_at_x {
+        let total = if d + 1 == n_at_x && rng.chance(2, 3) { 40 } else { rng.range(1, 4) as u64 };
+        let allowed = cap_list(rng, total);
+        depots.push(json!({"id": format!("{}.PX{}", tag, d), "location": loc(0), "capacity": total, "allowedTypes": allowed}));
+    }
+    let e_total = rng.range(1, n as i64) as u64;
+    let allowed = cap_list(rng, e_total);
+    depots.push(json!({"id": format!("{}.PY", tag), "location": loc(1), "capacity": e_total, "allowedTypes": allowed}));
+    if rng.chance(1, 2) {
+        rng.shuffle(&mut depots);
+    }
+    let mut root = json!({
+        "vehicleTypes": (0..ntypes).map(|t| json!({"id": vt(t), "capacity": 100, "seats": 60})).collect::<Vec<_>>(),
+        "locations": (0..nloc).map(|j| json!({"id": loc(j)})).collect::<Vec<_>>(),
+        "depots": depots,
+        "routes": routes,
+        "departures": departures,
+        "deadHeadTrips": {"indices": (0..nloc).map(loc).collect::<Vec<_>>(), "durations": durations, "distances": distances},
+        "parameters": {
+            "shunting": {"minimalDuration": *rng.pick(&[0i64, 120]), "deadHeadTripDuration": *rng.pick(&[0i64, 300])},
+            "costs": {"staff": rng.range(0, 100), "serviceTrip": rng.range(0, 60), "maintenance": 5, "deadHeadTrip": rng.range(50, 600), "idle": rng.range(0, 30)}
+        }
+    });
+    if rng.chance(1, 2) {
+        root["maintenanceSlots"] = json!([{"id": format!("{}.M0", tag), "location": loc(rng.usize(0, 3)), "start": iso(t0 + 3 * 3600), "end": iso(t0 + 4 * 3600), "trackCount": rng.range(1, 3)}]);
+        root["parameters"]["maintenance"] = json!({"maximalDistance": rng.range(10, 400) * 1000});
+    }
+    root
+}
+
+/// values at the far end of what the input format allows (all counts are 32-bit in the model):
+/// depot capacities, formation limits and track counts around 2^31 and 2^32 - 1, a departure
+/// with ~10^9 passengers on a segment with a formation limit, vehicle capacities beyond 2^31,
+/// service trips of thousands of kilometres, cost coefficients x10^4, a huge maintenance
+/// allowance. Returns the names of the applied kinds.
+pub fn apply_extremes(rng: &mut Rng, x: &mut Value) -> Vec<&'static str> {
+    const HUGE: [u64; 5] = [2147483647, 2147483648, 3000000000, 4294967295, 4294967294];
+    // formation limits and vehicle capacities stay where capacity x formation size fits 32 bits
+    // and where the flow builder's explicit overflow guard does not refuse the instance
+    const LARGE: [u64; 5] = [100, 255, 256, 1000, 999];
+    let mut applied = Vec::new();
+    // debugging aid: VERIF_EXTREME_KIND=<n> forces one kind
+    let forced: Option<u64> = std::env::var("VERIF_EXTREME_KIND").ok().and_then(|v| v.parse().ok());
+    let has_crowd = |x: &Value| x["departures"].as_array().map(|ds| ds.iter().any(|d| d["segments"].as_array().map(|sg| sg.iter().any(|g| g["passengers"].as_u64().unwrap_or(0) > 1 << 24)).unwrap_or(false))).unwrap_or(false);
+    for _ in 0..rng.usize(1, 3) {
+        let kind = forced.unwrap_or_else(|| rng.below(9));
+        // a crowd stays on a segment whose formation limit is small (formations of hundreds of
+        // coupled vehicles are outside the domain)
+        if (kind == 1 || kind == 2) && has_crowd(x) {
+            continue;
+        }
+        match kind {
+            0 => {
+                // depot capacities (total and per type)
+                if let Some(ds) = x.get_mut("depots").and_then(|d| d.as_array_mut()) {
+                    if !ds.is_empty() {
+                        let all = rng.chance(1, 3);
+                        let pick = rng.usize(0, ds.len() - 1);
+                        for (i, d) in ds.iter_mut().enumerate() {
+                            if !(all || i == pick) {
+                                continue;
+                            }
+                            let total = *rng.pick(&HUGE);
+                            d["capacity"] = json!(total);
+                            if let Some(al) = d.get_mut("allowedTypes").and_then(|a| a.as_array_mut()) {
+                                for a in al.iter_mut() {
+                                    if a.get("capacity").map(|c| c.is_u64()).unwrap_or(false) && rng.chance(1, 2) {
+                                        a["capacity"] = json!(*rng.pick(&HUGE));
+                                    }
+                                }
+                            }
+                        }
+                        applied.push("huge_depot_capacity");
+                    }
+                }
+            }
+            1 => {
+                if let Some(ts) = x.get_mut("vehicleTypes").and_then(|d| d.as_array_mut()) {
+                    let i = rng.usize(0, ts.len() - 1);
+                    ts[i]["maximalFormationCount"] = json!(*rng.pick(&LARGE));
+                    applied.push("large_type_formation_limit");
+                }
+            }
+            2 => {
+                if let Some(rs) = x.get_mut("routes").and_then(|d| d.as_array_mut()) {
+                    let i = rng.usize(0, rs.len() - 1);
+                    if let Some(segs) = rs[i].get_mut("segments").and_then(|d| d.as_array_mut()) {
+                        let k = rng.usize(0, segs.len() - 1);
+                        segs[k]["maximalFormationCount"] = json!(*rng.pick(&LARGE));
+                        applied.push("large_segment_formation_limit");
+                    }
+                }
+            }
+            3 => {
+                if let Some(ms) = x.get_mut("maintenanceSlots").and_then(|d| d.as_array_mut()) {
+                    if !ms.is_empty() {
+                        let i = rng.usize(0, ms.len() - 1);
+                        // every allotted track is filled by the start solution, and the flow
+                        // builder treats an absent formation limit as 100: stay well below
+                        ms[i]["trackCount"] = json!(*rng.pick(&[16u64, 17, 25]));
+                        applied.push("large_track_count");
+                    }
+                }
+            }
+            4 => {
+                // one departure segment with a formation limit gets a crowd nobody can carry
+                let limited_types: Vec<String> = x["vehicleTypes"].as_array().map(|a| a.iter().filter(|t| t.get("maximalFormationCount").map(|l| l.as_u64().map(|v| v <= 8).unwrap_or(false)).unwrap_or(false)).filter_map(|t| t["id"].as_str().map(|s| s.to_string())).collect()).unwrap_or_default();
+                let mut cands: Vec<(usize, usize)> = Vec::new();
+                if let (Some(deps), Some(routes)) = (x["departures"].as_array(), x["routes"].as_array()) {
+                    for (di, d) in deps.iter().enumerate() {
+                        let route = routes.iter().find(|r| r["id"] == d["route"]);
+                        if let (Some(route), Some(segs)) = (route, d["segments"].as_array()) {
+                            for (si, sg) in segs.iter().enumerate() {
+                                let type_limited = route["vehicleType"].as_str().map(|t| limited_types.iter().any(|l| l == t)).unwrap_or(false);
+                                let seg_limited = route["segments"].as_array().and_then(|rs| rs.iter().find(|r| r["id"] == sg["routeSegment"])).map(|r| r.get("maximalFormationCount").and_then(|l| l.as_u64()).map(|v| v <= 8).unwrap_or(false)).unwrap_or(false);
+                                if type_limited || seg_limited {
+                                    cands.push((di, si));
+                                }
+                            }
+                        }
+                    }
+                }
+                let crowd_present = x["departures"].as_array().map(|ds| ds.iter().any(|d| d["segments"].as_array().map(|sg| sg.iter().any(|g| g["passengers"].as_u64().unwrap_or(0) > 1 << 24)).unwrap_or(false))).unwrap_or(false);
+                if !cands.is_empty() && !crowd_present {
+                    let &(di, si) = rng.pick(&cands);
+                    let crowd = *rng.pick(&[16777217u64, 20000003, 999999937, 2147483000, 2000000011]);
+                    x["departures"][di]["segments"][si]["passengers"] = json!(crowd);
+                    x["departures"][di]["segments"][si]["seated"] = json!(rng.range(0, 40));
+                    applied.push("crowd_beyond_2^24_on_limited_segment");
+                }
+            }
+            5 => {
+                if let Some(ts) = x.get_mut("vehicleTypes").and_then(|d| d.as_array_mut()) {
+                    let i = rng.usize(0, ts.len() - 1);
+                    let c = *rng.pick(&[65535u64, 65536, 1000000]);
+                    ts[i]["capacity"] = json!(c);
+                    ts[i]["seats"] = json!(if rng.chance(1, 2) { c } else { c / 2 });
+                    applied.push("large_vehicle_capacity");
+                }
+            }
+            6 => {
+                // service trips of thousands of kilometres: whole tours beyond 10000 km
+                if let Some(rs) = x.get_mut("routes").and_then(|d| d.as_array_mut()) {
+                    for r in rs.iter_mut() {
+                        if let Some(segs) = r.get_mut("segments").and_then(|d| d.as_array_mut()) {
+                            for sg in segs.iter_mut() {
+                                if rng.chance(2, 3) {
+                                    sg["distance"] = json!(rng.range(1500, 9000) * 1000);
+                                }
+                            }
+                        }
+                    }
+                    applied.push("service_trips_of_thousands_of_km");
+                }
+            }
+            7 => {
+                if let Some(c) = x["parameters"].get_mut("costs").and_then(|c| c.as_object_mut()) {
+                    for (_, v) in c.iter_mut() {
+                        if let Some(n) = v.as_u64() {
+                            *v = json!(n.min(100000) * 10000);
+                        }
+                    }
+                    applied.push("cost_coefficients_x10000");
+                }
+            }
+            _ => {
+                if x["parameters"].get("maintenance").map(|m| m.is_object()).unwrap_or(false) {
+                    x["parameters"]["maintenance"]["maximalDistance"] = json!(*rng.pick(&[4294967296u64, 1u64 << 40, 9999999999]));
+                    applied.push("huge_maintenance_allowance");
+                }
+            }
+        }
+    }
+    applied
 }
 
 /// features of an instance that evidence files report
